@@ -772,4 +772,148 @@ Section Sim.
           exact Hout.
   Qed.
 
+  (* ====================================================================== *)
+  (* partial decoding (partial = true): a sequence may be cut at [oend]       *)
+  (* ====================================================================== *)
+
+  Lemma is_cod_mono out (P Q : bool -> dstate -> Prop) :
+    is_cont_or_done out P -> (forall d s', P d s' -> Q d s') -> is_cont_or_done out Q.
+  Proof. destruct out as [[|] s'|s'|s']; cbn [is_cont_or_done]; intros H HQ; try contradiction; auto. Qed.
+
+  Lemma is_cont_cod out (P : dstate -> Prop) (Q : bool -> dstate -> Prop) :
+    is_cont out P -> (forall s', P s' -> Q false s') -> is_cont_or_done out Q.
+  Proof. destruct out as [[|] s'|s'|s']; cbn [is_cont is_cont_or_done]; intros H HQ; try contradiction; auto. Qed.
+
+  Lemma is_done_cod out (P : dstate -> Prop) (Q : bool -> dstate -> Prop) :
+    is_done out P -> (forall s', P s' -> Q true s') -> is_cont_or_done out Q.
+  Proof. destruct out as [[|] s'|s'|s']; cbn [is_done is_cont_or_done]; intros H HQ; try contradiction; auto. Qed.
+
+  (* list facts for cut sequences *)
+  Lemma skipn_S_tl : forall k (l : list Z), skipn (S k) l = tl (skipn k l).
+  Proof.
+    induction k as [|k IH]; intros l.
+    - destruct l; reflexivity.
+    - destruct l as [|x l]; [reflexivity|]. cbn [skipn] in *. apply IH.
+  Qed.
+
+  Lemma copy_match_skipn : forall k (r : list Z) off r', copy_match r off k = Some r' -> skipn k r' = r.
+  Proof.
+    induction k as [|k IH]; intros r off r' H; cbn [copy_match] in H; unfold byte in *.
+    - inversion H. reflexivity.
+    - destruct (nth_error r (off - 1)) as [b|]; [|discriminate].
+      pose proof (copy_match_length _ _ _ _ H) as Hl.
+      apply IH in H.
+      (* skipn (S k) r' = tl (skipn k r') *)
+      rewrite skipn_S_tl, H. reflexivity.
+  Qed.
+
+  Lemma rev_firstn_skipn (lits rout : list Z) n :
+    (n <= length lits)%nat -> rev (firstn n lits) ++ rout = skipn (length lits - n) (rev lits ++ rout).
+  Proof.
+    intros Hn. rewrite <- (firstn_skipn n lits) at 3.
+    rewrite rev_app_distr, <- app_assoc.
+    rewrite skipn_app. rewrite rev_length, skipn_length.
+    replace (length lits - n - (length lits - n))%nat with 0%nat by lia.
+    rewrite skipn_all2 by (rewrite rev_length, skipn_length; lia). reflexivity.
+  Qed.
+
+  Lemma apply_seqs_suffix : forall ss (r r' : list Z), apply_seqs r ss = Some r' ->
+    exists X, r' = X ++ r /\ Z.of_nat (length X) = total_len ss [].
+  Proof.
+    induction ss as [|x ss IH]; intros r r' H; cbn [apply_seqs] in H.
+    - inversion H; subst. exists []. split; reflexivity.
+    - destruct (apply_seq r x) as [r1|] eqn:E; [|discriminate].
+      destruct (IH _ _ H) as (X & -> & HX).
+      unfold apply_seq in E. destruct (off_ok (s_off x) && (4 <=? s_mlen x)) eqn:E2; [|discriminate].
+      pose proof (copy_match_length _ _ _ _ E) as Hl.
+      apply copy_match_skipn in E.
+      exists (X ++ firstn (Z.to_nat (s_mlen x)) r1 ++ rev (s_lits x)). split.
+      + rewrite <- !app_assoc. f_equal.
+        rewrite <- (firstn_skipn (Z.to_nat (s_mlen x)) r1) at 1. rewrite E. reflexivity.
+      + rewrite !app_length, rev_length, firstn_length. rewrite app_length, rev_length in Hl.
+        cbn [total_len fold_right]. unfold total_len in HX. unfold byte in *. lia.
+  Qed.
+
+  Lemma skipn_app_exact (Y r : list Z) a c : length Y = a -> skipn (a + c) (Y ++ r) = skipn c r.
+  Proof.
+    intros <-. rewrite skipn_app. rewrite skipn_all2 by lia.
+    replace (length Y + c - length Y)%nat with c by lia. reflexivity.
+  Qed.
+
+  (* ---------- the match copy when it comes within 12 bytes of [oend] ---------- *)
+  Lemma safe_match_cut s offset length :
+    partial = true ->
+    1 <= offset -> lowPrefix <= op s - offset -> 4 <= length -> op s <= oend ->
+    op s + length > oend - 12 ->
+    is_cont_or_done (safe_match partial dict oend lowPrefix rlow dictm dictSize s offset length)
+      (fun done s' => ip s' = ip s /\ op s' = op s + Z.min length (oend - op s) /\
+                      same_below (dm s) (dm s') (op s) /\
+                      lzrec (dm s') offset (op s) (op s + Z.min length (oend - op s)) /\
+                      (if done then op s' = oend else op s' < oend)).
+  Proof.
+    intros Hp Ho Hmat Hlen Hop Hnear.
+    unfold safe_match. cbv zeta. rewrite Hp. cbn [andb].
+    hd. hd. hd.
+    set (n := Z.min length (oend - op s)) in *.
+    assert (Hn : 0 <= n) by (unfold n; lia).
+    destruct (op s - offset + n >? op s) eqn:Eov; cbv beta iota.
+    - destruct (copy_fwd_lz (Z.to_nat n) (dm s) (op s) offset Ho) as [S R].
+      rewrite Z2Nat.id in R by lia.
+      destruct (op s + n =? oend) eqn:Eend; cbn [is_cont_or_done ip op dm].
+      + repeat split; try assumption; lia.
+      + repeat split; try assumption; lia.
+    - destruct (memcpy_lz (dm s) (op s) offset (Z.to_nat n)) as [S R]; [lia|].
+      rewrite Z2Nat.id in R by lia. unfold memcpy_k in S, R.
+      destruct (op s + n =? oend) eqn:Eend; cbn [is_cont_or_done ip op dm].
+      + repeat split; try assumption; lia.
+      + repeat split; try assumption; lia.
+  Qed.
+
+  (* [_copy_match] in partial mode, anywhere in the buffer *)
+  Lemma copy_match_lbl_part s offset nib r3 ml r4 :
+    partial = true ->
+    0 <= nib <= 15 ->
+    read_len nib r3 = Some (ml, r4) -> src_at srcm (ip s) r3 -> bytes r3 ->
+    0 <= ip s -> ip s + Z.of_nat (length r3) <= iend -> (4 <= length r4)%nat ->
+    1 <= offset -> lowPrefix <= op s - offset -> op s <= oend ->
+    is_cont_or_done (copy_match_lbl partial dict srcm iend oend lowPrefix rlow dictm dictSize s offset nib)
+      (fun done s' => op s' = op s + Z.min (ml + 4) (oend - op s) /\
+                      same_below (dm s) (dm s') (op s) /\
+                      frec (vget (dm s')) offset (op s) (op s + Z.min (ml + 4) (oend - op s)) /\
+                      0 <= ml /\
+                      (if done then op s' = oend
+                       else op s' = op s + (ml + 4) /\
+                            ip s' = ip s + (Z.of_nat (length r3) - Z.of_nat (length r4)) /\ src_at srcm (ip s') r4)).
+  Proof.
+    intros Hp Hnib Hrl Hs Hb Hip Hie Hr4 Ho Hmat Hop.
+    assert (Hml : 0 <= ml).
+    { unfold read_len in Hrl. destruct (nib =? 15); [apply read_ext_ge in Hrl; [lia | exact Hb] | inversion Hrl; lia]. }
+    destruct (Z_le_gt_dec (op s + (ml + 4)) (oend - 12)) as [Hfar|Hnear].
+    - (* far: the full-decoding lemma applies *)
+      eapply is_cont_cod.
+      + apply (copy_match_lbl_sim s offset nib r3 ml r4); try assumption. rewrite Hp. exact Hfar.
+      + cbn beta. intros s' (H1 & H2 & H3 & H4 & H5 & H6 & H7).
+        replace (Z.min (ml + 4) (oend - op s)) with (ml + 4) by lia.
+        repeat split; try assumption; lia.
+    - unfold copy_match_lbl, read_len in *.
+      destruct (nib =? 15) eqn:E15.
+      + assert (E : (nib =? ML_MASK) = true) by fin. rewrite E. clear E.
+        destruct (rvl_sim r3 ml r4 (ip s) (iend - LASTLITERALS + 1) false (ok s) Hrl Hs Hip Hie) as (Hl & Hsr & kf' & Hr); [fin|].
+        rewrite Hr. cbv beta iota.
+        replace (nib + (ml - 15) + MINMATCH) with (ml + 4) by fin.
+        eapply is_cod_mono.
+        * apply (safe_match_cut (mkD (ip s + (Z.of_nat (length r3) - Z.of_nat (length r4))) (op s) (dm s) kf') offset (ml + 4)); cbn [ip op dm]; try assumption; lia.
+        * cbn [ip op dm]. intros done s' (H1 & H2 & H3 & H4 & H5).
+          split; [exact H2|]. split; [exact H3|]. split; [apply lzrec_v; [exact H4 | lia | lia]|]. split; [exact Hml|].
+          destruct done; [exact H5|]. split; [lia|]. split; [exact H1|]. rewrite H1. exact Hsr.
+      + inversion Hrl; subst ml r4.
+        assert (E : (nib =? ML_MASK) = false) by fin. rewrite E. clear E.
+        replace (nib + MINMATCH) with (nib + 4) by fin.
+        eapply is_cod_mono.
+        * apply (safe_match_cut s offset (nib + 4)); try assumption; lia.
+        * cbn beta. intros done s' (H1 & H2 & H3 & H4 & H5).
+          split; [exact H2|]. split; [exact H3|]. split; [apply lzrec_v; [exact H4 | lia | lia]|]. split; [exact Hml|].
+          destruct done; [exact H5|]. split; [lia|]. split; [lia|]. rewrite H1. exact Hs.
+  Qed.
+
 End Sim.
